@@ -1,6 +1,7 @@
 package main
 
 import (
+	"bytes"
 	"sort"
 	"strings"
 
@@ -28,7 +29,15 @@ func fromSource(src []byte) (*refwriter.Body, hcl.Diagnostics) {
 		return nil, diags
 	}
 	sr := &srcReader{src: src}
-	toks, _ := hclsyntax.LexConfig(src, "out.hcl", hcl.InitialPos)
+	for i, c := range src {
+		if c == '\n' {
+			sr.nls = append(sr.nls, i)
+		}
+	}
+	var toks hclsyntax.Tokens
+	if bytes.IndexAny(src, "#/") >= 0 { // no comment without one of these
+		toks, _ = hclsyntax.LexConfig(src, "out.hcl", hcl.InitialPos)
+	}
 	for _, t := range toks {
 		if t.Type != hclsyntax.TokenComment {
 			continue
@@ -49,18 +58,13 @@ type srcComment struct {
 
 type srcReader struct {
 	src      []byte
+	nls      []int        // offsets of the newline bytes
 	comments []srcComment // in source order
 }
 
-// line is the 0-based line of a byte offset.
+// line is the 0-based line of a byte offset (the number of newlines before it).
 func (r *srcReader) line(off int) int {
-	n := 0
-	for _, c := range r.src[:off] {
-		if c == '\n' {
-			n++
-		}
-	}
-	return n
+	return sort.SearchInts(r.nls, off)
 }
 
 // srcEnt is one item of a body with its byte range [start,end) (attribute:
@@ -102,7 +106,7 @@ func (r *srcReader) attach(b *refwriter.Body, ents []srcEnt, lo, hi int) {
 	}
 	var own []pending
 	put := func(e *srcEnt, c srcComment, kind string) {
-		rc := refwriter.Comment{Seq: c.start, Text: stripSpaces(r.src[c.start:c.end]), Kind: kind}
+		rc := refwriter.Comment{Seq: c.start, Text: stripSpaces(r.src[c.start:c.end]), Kind: kind, Open: c.end == len(r.src)}
 		if e == nil {
 			b.Free = append(b.Free, rc)
 			return
